@@ -87,6 +87,10 @@ func (cr *serverConnReader) runInner() error {
 	var rw io.ReadWriter = cr.sc.bc
 
 	if cr.sc.tunnel == TunnelNone {
+		// the first bytes of a connection are read here, before
+		// readFuncStandard() sets its own deadlines.
+		cr.sc.nconn.SetReadDeadline(time.Now().Add(cr.sc.s.IdleTimeout))
+
 		var err error
 		rw, err = cr.handleTunneling(rw)
 		if err != nil {
